@@ -63,7 +63,7 @@ FIELD_NAMES = ["a", "b", "c", "r#type", "_0", "source", "x1"]
 CASINGS = ["lowercase", "UPPERCASE", "PascalCase", "camelCase", "snake_case", "SCREAMING_SNAKE_CASE", "kebab-case",
            "SCREAMING-KEBAB-CASE"]
 TYPE_NAMES = ["Foo", "FooBar", "PointXy", "r#Struct", "Xml", "OneTwoThree"]
-MODS = ["", "", "", ">8", "+", "#", "08", ".3", "<5.2", "^", "1$", "w$", ".*", ".p$"]
+MODS = ["", "", "", ">8", "+", "-", "#", "0", "08", ".3", "<5.2", "^", "<", "é^", "1$", "w$", ".*", ".p$", "5"]
 
 
 def gen_fields(rng, params, allow_attr=False, min_fields=0):
